@@ -1679,8 +1679,11 @@ func (h *ResponseHeader) SetCookie(cookie *Cookie) {
 // SetCookie sets 'key: value' cookies.
 func (h *RequestHeader) SetCookie(key, value string) {
 	h.collectCookies()
-	h.bufK = initHeaderValueString(h.bufK, key)
-	h.bufV = initHeaderValueString(h.bufV, value)
+	// ';' separates the pairs of a Cookie header: neutralise it like the
+	// response Cookie setters do, or a value such as "1; admin=1" would be
+	// read by the server as an additional cookie.
+	h.bufK = removeSemicolons(initHeaderValueString(h.bufK, key))
+	h.bufV = removeSemicolons(initHeaderValueString(h.bufV, value))
 	h.cookies = setArgBytes(h.cookies, h.bufK, h.bufV, argsHasValue)
 }
 
